@@ -605,18 +605,18 @@ fn opts_variants(rng: &mut Rng) -> Vec<Opts> {
 pub fn c03(ctx: &mut Ctx) {
     let mut evals = corr_core();
     evals.extend(vec![ev("exact", "or_exact", "oracle"), ev("reflects", "or_reflects", "oracle"), ev("hyp", "in_hyp_docs", "hyp")]);
-    run_docprop(ctx, DocProp { evals, opts: opts_qx_one, exhaustive: true, n_rand: (2000, 60000), pools: vec![], tweak: no_tweak, extra: None, max_docs: 4, with_chars: true, what: "rendered with the quick-xml preset, sort option chosen at random" });
+    run_docprop(ctx, DocProp { evals, opts: opts_qx_one, exhaustive: true, n_rand: (2000, 16000), pools: vec![], tweak: no_tweak, extra: None, max_docs: 4, with_chars: true, what: "rendered with the quick-xml preset, sort option chosen at random" });
 }
 pub fn c01(ctx: &mut Ctx) {
     let mut evals = corr_core();
     evals.extend(vec![ev("admits", "or_admits", "oracle"), ev("hyp", "in_hyp_admits", "hyp")]);
-    run_docprop(ctx, DocProp { evals, opts: opts_qx_both, exhaustive: true, n_rand: (2000, 60000), pools: vec![], tweak: no_tweak, extra: None, max_docs: 4, with_chars: true, what: "rendered with the quick-xml preset under both sort options; each source document is checked against the parsed rendering" });
+    run_docprop(ctx, DocProp { evals, opts: opts_qx_both, exhaustive: true, n_rand: (2000, 16000), pools: vec![], tweak: no_tweak, extra: None, max_docs: 4, with_chars: true, what: "rendered with the quick-xml preset under both sort options; each source document is checked against the parsed rendering" });
 }
 pub fn c04(ctx: &mut Ctx) {
     let mut evals = vec![ev("bytes", "ev_bytes", "corr"), ev("wf", "or_wf", "oracle"), ev("reflects", "or_reflects", "oracle"), ev("hyp", "in_hyp_names", "hyp")];
     // renderer-only property: the parser's internal state is not compared here (a harmless rewrite
     // of the parser must not break this check); `bytes` renders the implementation's own tree
-    run_docprop(ctx, DocProp { evals, opts: opts_presets, exhaustive: false, n_rand: (2500, 60000), pools: vec![3, 4, 5, 6, 7, 8, 9, 10, 11, 12, 14, 15, 16, 17, 18, 19, 20, 21, 23, 24, 28, 29, 30, 31, 31, 33, 34, 34], tweak: no_tweak, extra: None, max_docs: 3, with_chars: true, what: "adversarial name pools only; both presets x both sort options" });
+    run_docprop(ctx, DocProp { evals, opts: opts_presets, exhaustive: false, n_rand: (2500, 16000), pools: vec![3, 4, 5, 6, 7, 8, 9, 10, 11, 12, 14, 15, 16, 17, 18, 19, 20, 21, 23, 24, 28, 29, 30, 31, 31, 33, 34, 34], tweak: no_tweak, extra: None, max_docs: 3, with_chars: true, what: "adversarial name pools only; both presets x both sort options" });
 }
 /// implementation-only: one element with `n` distinct children (far beyond what the model can
 /// evaluate per run); the fields and the struct definitions must follow the document (unsorted)
@@ -783,11 +783,11 @@ pub fn c09(ctx: &mut Ctx) {
             }
         }
     }
-    run_docprop(ctx, DocProp { evals, opts: opts_qx_both, exhaustive: true, n_rand: (2000, 60000), pools: vec![], tweak, extra: None, max_docs: 4, with_chars: true, what: "renderings in pairs (Unsorted, XmlName); generator widened to many attributes/children appearing late" });
+    run_docprop(ctx, DocProp { evals, opts: opts_qx_both, exhaustive: true, n_rand: (2000, 16000), pools: vec![], tweak, extra: None, max_docs: 4, with_chars: true, what: "renderings in pairs (Unsorted, XmlName); generator widened to many attributes/children appearing late" });
 }
 pub fn c10(ctx: &mut Ctx) {
     let evals = vec![ev("bytes", "ev_bytes", "corr"), ev("reflects", "or_reflects", "oracle"), ev("derive", "or_derive", "oracle"), ev("orthogonal", "or_orthogonal", "oracle")];
-    run_docprop(ctx, DocProp { evals, opts: opts_variants, exhaustive: false, n_rand: (1500, 40000), pools: vec![], tweak: no_tweak, extra: None, max_docs: 3, with_chars: true, what: "six option values per tree: both presets and a random (text identifier, attribute prefix, derive) under both sort options" });
+    run_docprop(ctx, DocProp { evals, opts: opts_variants, exhaustive: false, n_rand: (1500, 12000), pools: vec![], tweak: no_tweak, extra: None, max_docs: 3, with_chars: true, what: "six option values per tree: both presets and a random (text identifier, attribute prefix, derive) under both sort options" });
 }
 pub fn c14(ctx: &mut Ctx) {
     let mut evals = vec![ev("bytes", "ev_bytes", "corr"), ev("names", "or_names", "oracle"), ev("hyp", "in_hyp_names", "hyp")];
@@ -800,7 +800,7 @@ pub fn c14(ctx: &mut Ctx) {
             g.names.truncate(2);
         }
     }
-    run_docprop(ctx, DocProp { evals, opts: opts_qx_both, exhaustive: false, n_rand: (2500, 60000), pools: vec![], tweak, extra: None, max_docs: 3, with_chars: true, what: "few names and deep trees so the same name recurs under different parents, at different depths and under itself" });
+    run_docprop(ctx, DocProp { evals, opts: opts_qx_both, exhaustive: false, n_rand: (2500, 16000), pools: vec![], tweak, extra: None, max_docs: 3, with_chars: true, what: "few names and deep trees so the same name recurs under different parents, at different depths and under itself" });
 }
 
 // ------------------------------------------------------------------ canonical schema (C06)
@@ -981,7 +981,7 @@ fn root_name(d: &[Node]) -> Option<String> {
 pub fn c06(ctx: &mut Ctx) {
     let mut evals = corr_core();
     evals.extend(vec![ev("exact", "or_exact", "oracle"), ev("hyp", "in_hyp_docs", "hyp")]);
-    run_docprop(ctx, DocProp { evals, opts: opts_qx_one, exhaustive: true, n_rand: (2500, 60000), pools: vec![], tweak: no_tweak, extra: Some(c06_extra), max_docs: 4, with_chars: true, what: "each sequence is also re-run on the implementation permuted, with a repeated document, with an element-less document inserted, prefix by prefix (monotonicity) and with a faulty extension appended" });
+    run_docprop(ctx, DocProp { evals, opts: opts_qx_one, exhaustive: true, n_rand: (2500, 16000), pools: vec![], tweak: no_tweak, extra: Some(c06_extra), max_docs: 4, with_chars: true, what: "each sequence is also re-run on the implementation permuted, with a repeated document, with an element-less document inserted, prefix by prefix (monotonicity) and with a faulty extension appended" });
 }
 
 // ------------------------------------------------------------------ C11
@@ -1089,7 +1089,7 @@ fn c11_extra(_ctx: &mut Ctx, docs: &[Vec<Node>], bytes: &[Vec<u8>], b: &Built, r
 }
 pub fn c11(ctx: &mut Ctx) {
     let evals = corr_core();
-    run_docprop(ctx, DocProp { evals, opts: opts_presets, exhaustive: true, n_rand: (2000, 50000), pools: vec![], tweak: no_tweak, extra: Some(c11_extra), max_docs: 3, with_chars: true, what: "each sequence is also rendered by the implementation after re-serialising the same DOM with other values/text/whitespace, after DOM rewrites (text<->CDATA, comments/PIs/declaration/DOCTYPE inserted and removed, <x/> <-> <x></x>), with expand_empty_elements, and through BufReaders of capacity 1..8192; all renderings (both presets x both sorts) must be byte-identical" });
+    run_docprop(ctx, DocProp { evals, opts: opts_presets, exhaustive: true, n_rand: (2000, 14000), pools: vec![], tweak: no_tweak, extra: Some(c11_extra), max_docs: 3, with_chars: true, what: "each sequence is also rendered by the implementation after re-serialising the same DOM with other values/text/whitespace, after DOM rewrites (text<->CDATA, comments/PIs/declaration/DOCTYPE inserted and removed, <x/> <-> <x></x>), with expand_empty_elements, and through BufReaders of capacity 1..8192; all renderings (both presets x both sorts) must be byte-identical" });
 }
 
 // ------------------------------------------------------------------ C05
@@ -1187,5 +1187,5 @@ pub fn c05(ctx: &mut Ctx) {
         g.max_kids = rng.range(3, 7);
         g.p_empty = 350;
     }
-    run_docprop(ctx, DocProp { evals, opts: opts_presets, exhaustive: false, n_rand: (1500, 30000), pools: vec![0, 3, 3, 4, 5, 5, 6, 7, 9, 10, 11, 12, 23, 24], tweak, extra: Some(c05_extra), max_docs: 4, with_chars: true, what: "collision-prone name pools over-weighted; every case is parsed and rendered again 6-12x in process (fresh HashMap seeds), on 3 fresh threads and (a sample) in 2 fresh processes; all bytes must coincide and equal the model's" });
+    run_docprop(ctx, DocProp { evals, opts: opts_presets, exhaustive: false, n_rand: (1500, 10000), pools: vec![0, 3, 3, 4, 5, 5, 6, 7, 9, 10, 11, 12, 23, 24], tweak, extra: Some(c05_extra), max_docs: 4, with_chars: true, what: "collision-prone name pools over-weighted; every case is parsed and rendered again 6-12x in process (fresh HashMap seeds), on 3 fresh threads and (a sample) in 2 fresh processes; all bytes must coincide and equal the model's" });
 }
